@@ -5,7 +5,7 @@ open LPVerif.Skel
 
 /-- kernprof.py `_main`, from the statement that sets sys.argv to the end -/
 def kernprofBody : Skel Nat :=
-  .seq (.eff 0 false) (.seq (.ite 1 (.eff 2 false) (.skip)) (.seq (.ite 3 (.seq (.eff 4 true) (.seq (.eff 5 false) (.seq (.eff 6 false) (.seq (.eff 7 false) (.seq (.eff 8 false) (.eff 9 true)))))) (.skip)) (.seq (.ite 10 (.seq (.eff 11 false) (.seq (.eff 12 false) (.eff 13 false))) (.ite 14 (.raise_ .other) (.eff 15 false))) (.seq (.ite 1 (.eff 16 true) (.seq (.eff 17 true) (.eff 18 false))) (.seq (.eff 19 false) (.seq (.eff 6 false) (.seq (.tryExcept (.eff 11 false) [.special] (.eff 22 false) (.seq (.eff 20 false) (.eff 21 false))) (.seq (.ite 23 (.seq (.eff 24 false) (.eff 25 false)) (.skip)) (.seq (.ite 26 (.eff 27 false) (.skip)) (.seq (.eff 28 false) (.seq (.ite 29 (.eff 30 false) (.skip)) (.tryFinally (.tryExcept (.seq (.eff 31 false) (.seq (.eff 32 false) (.seq (.eff 8 false) (.ite 33 (.seq (.eff 34 false) (.seq (.eff 35 false) (.eff 36 true))) (.ite 37 (.eff 38 true) (.ite 26 (.eff 39 true) (.ite 1 (.eff 40 true) (.eff 41 true)))))))) [.kbInt, .sysExit] (.skip) (.skip)) (.seq (.ite 29 (.eff 42 false) (.skip)) (.seq (.eff 43 false) (.seq (.eff 44 false) (.seq (.ite 45 (.ite 46 (.eff 47 false) (.eff 48 false)) (.seq (.eff 49 false) (.seq (.eff 50 false) (.ite 46 (.eff 51 false) (.eff 52 false))))) (.ite 23 (.seq (.eff 53 false) (.eff 54 false)) (.skip))))))))))))))))))
+  .seq (.eff 0 false) (.seq (.ite 1 (.eff 2 false) (.skip)) (.seq (.ite 3 (.seq (.eff 4 true) (.seq (.eff 5 false) (.seq (.eff 6 false) (.seq (.eff 7 false) (.seq (.eff 8 false) (.eff 9 true)))))) (.skip)) (.seq (.ite 10 (.seq (.eff 11 false) (.seq (.eff 12 false) (.eff 13 false))) (.ite 14 (.raise_ .other) (.eff 15 false))) (.seq (.ite 1 (.eff 16 true) (.seq (.eff 17 true) (.eff 18 false))) (.seq (.eff 19 false) (.seq (.eff 6 false) (.seq (.tryExcept (.eff 11 false) [.special] (.eff 22 false) (.seq (.eff 20 false) (.eff 21 false))) (.seq (.ite 23 (.seq (.eff 24 false) (.eff 25 false)) (.skip)) (.seq (.ite 26 (.eff 27 false) (.skip)) (.seq (.eff 28 false) (.seq (.ite 29 (.eff 30 false) (.skip)) (.tryFinally (.tryExcept (.seq (.eff 31 false) (.seq (.eff 32 false) (.seq (.eff 8 false) (.ite 33 (.seq (.eff 34 false) (.seq (.eff 35 false) (.eff 36 true))) (.ite 37 (.eff 38 true) (.ite 26 (.eff 39 true) (.ite 1 (.eff 40 true) (.eff 41 true)))))))) [.kbInt, .sysExit] (.skip) (.skip)) (.tryFinally (.seq (.ite 29 (.eff 42 false) (.skip)) (.seq (.eff 43 true) (.seq (.eff 44 false) (.ite 45 (.ite 46 (.eff 47 false) (.eff 48 false)) (.seq (.eff 49 false) (.seq (.eff 50 false) (.ite 46 (.eff 51 false) (.eff 52 false)))))))) (.ite 23 (.seq (.eff 53 false) (.eff 54 false)) (.skip)))))))))))))))
 
 /-- kernprof.py `_main`, from the statement that sets sys.argv up to the installation of the profiler -/
 def kernprofHead : Skel Nat :=
@@ -13,11 +13,11 @@ def kernprofHead : Skel Nat :=
 
 /-- kernprof.py `_main`, from the installation of the profiler into the global @profile to the end -/
 def kernprofFromInstall : Skel Nat :=
-  .seq (.tryExcept (.eff 11 false) [.special] (.eff 22 false) (.seq (.eff 20 false) (.eff 21 false))) (.seq (.ite 23 (.seq (.eff 24 false) (.eff 25 false)) (.skip)) (.seq (.ite 26 (.eff 27 false) (.skip)) (.seq (.eff 28 false) (.seq (.ite 29 (.eff 30 false) (.skip)) (.tryFinally (.tryExcept (.seq (.eff 31 false) (.seq (.eff 32 false) (.seq (.eff 8 false) (.ite 33 (.seq (.eff 34 false) (.seq (.eff 35 false) (.eff 36 true))) (.ite 37 (.eff 38 true) (.ite 26 (.eff 39 true) (.ite 1 (.eff 40 true) (.eff 41 true)))))))) [.kbInt, .sysExit] (.skip) (.skip)) (.seq (.ite 29 (.eff 42 false) (.skip)) (.seq (.eff 43 false) (.seq (.eff 44 false) (.seq (.ite 45 (.ite 46 (.eff 47 false) (.eff 48 false)) (.seq (.eff 49 false) (.seq (.eff 50 false) (.ite 46 (.eff 51 false) (.eff 52 false))))) (.ite 23 (.seq (.eff 53 false) (.eff 54 false)) (.skip)))))))))))
+  .seq (.tryExcept (.eff 11 false) [.special] (.eff 22 false) (.seq (.eff 20 false) (.eff 21 false))) (.seq (.ite 23 (.seq (.eff 24 false) (.eff 25 false)) (.skip)) (.seq (.ite 26 (.eff 27 false) (.skip)) (.seq (.eff 28 false) (.seq (.ite 29 (.eff 30 false) (.skip)) (.tryFinally (.tryExcept (.seq (.eff 31 false) (.seq (.eff 32 false) (.seq (.eff 8 false) (.ite 33 (.seq (.eff 34 false) (.seq (.eff 35 false) (.eff 36 true))) (.ite 37 (.eff 38 true) (.ite 26 (.eff 39 true) (.ite 1 (.eff 40 true) (.eff 41 true)))))))) [.kbInt, .sysExit] (.skip) (.skip)) (.tryFinally (.seq (.ite 29 (.eff 42 false) (.skip)) (.seq (.eff 43 true) (.seq (.eff 44 false) (.ite 45 (.ite 46 (.eff 47 false) (.eff 48 false)) (.seq (.eff 49 false) (.seq (.eff 50 false) (.ite 46 (.eff 51 false) (.eff 52 false)))))))) (.ite 23 (.seq (.eff 53 false) (.eff 54 false)) (.skip))))))))
 
 /-- kernprof.py `_main`, from the first RepeatedTimer statement to the end -/
 def kernprofTail : Skel Nat :=
-  .seq (.ite 29 (.eff 30 false) (.skip)) (.tryFinally (.tryExcept (.seq (.eff 31 false) (.seq (.eff 32 false) (.seq (.eff 8 false) (.ite 33 (.seq (.eff 34 false) (.seq (.eff 35 false) (.eff 36 true))) (.ite 37 (.eff 38 true) (.ite 26 (.eff 39 true) (.ite 1 (.eff 40 true) (.eff 41 true)))))))) [.kbInt, .sysExit] (.skip) (.skip)) (.seq (.ite 29 (.eff 42 false) (.skip)) (.seq (.eff 43 false) (.seq (.eff 44 false) (.seq (.ite 45 (.ite 46 (.eff 47 false) (.eff 48 false)) (.seq (.eff 49 false) (.seq (.eff 50 false) (.ite 46 (.eff 51 false) (.eff 52 false))))) (.ite 23 (.seq (.eff 53 false) (.eff 54 false)) (.skip)))))))
+  .seq (.ite 29 (.eff 30 false) (.skip)) (.tryFinally (.tryExcept (.seq (.eff 31 false) (.seq (.eff 32 false) (.seq (.eff 8 false) (.ite 33 (.seq (.eff 34 false) (.seq (.eff 35 false) (.eff 36 true))) (.ite 37 (.eff 38 true) (.ite 26 (.eff 39 true) (.ite 1 (.eff 40 true) (.eff 41 true)))))))) [.kbInt, .sysExit] (.skip) (.skip)) (.tryFinally (.seq (.ite 29 (.eff 42 false) (.skip)) (.seq (.eff 43 true) (.seq (.eff 44 false) (.ite 45 (.ite 46 (.eff 47 false) (.eff 48 false)) (.seq (.eff 49 false) (.seq (.eff 50 false) (.ite 46 (.eff 51 false) (.eff 52 false)))))))) (.ite 23 (.seq (.eff 53 false) (.eff 54 false)) (.skip))))
 
 /-- decorators of kernprof.main -/
 def kernprofMainDecorators : List String := []
